@@ -85,7 +85,7 @@ theorem step_scalars {rec : Ty → Ty → Answer} {cfg : Cfg} {a b : Nat}
   | sameType => simp [step, stepSameType, hbeq]
   | dstAny => simp [step, stepDstAny]
   | unionSubcase => simp [step, stepUnionSubcase]
-  | subclass => simp [step, stepSubclass, classOrigin, hsub]
+  | subclass => simp [step, stepSubclass, classOriginSrc, classOriginDst, hsub]
 
 theorem runRecipe_all_skip {f : Prov → Step} : ∀ ps, (∀ p, f p = .skip) → runRecipe f ps = .notFound
   | [], _ => rfl
